@@ -350,7 +350,7 @@ def judge_trace(rep, bd, events, name, module="MC_Judge", tag="judge", key_of=No
     if r.distinct != len(events) + 1:
         raise MachineryError("trace not consumed: %d states for %d events (%s)" % (r.distinct, len(events), name))
     for v in r.tagged("VIOL"):
-        ev = v["ev"]
+        ev = v["ev"] if "ev" in v else v
         k = key_of(ev) if key_of else {"check": ev.get("op"), "call": ev.get("call")}
         rep.violation(k, {kk: (vv if not isinstance(vv, str) else vv[:300]) for kk, vv in ev.items() if kk not in ("op",)})
     rep.count(evaluations=len(events), nontrivial=len(set(json.dumps(e, sort_keys=True, default=str) for e in events)), traces=1)
